@@ -52,6 +52,9 @@ type Cfg struct {
 	// requested_at + configured lifetime, with the same outcome (lifetime source "server default" of C07). Authorization
 	// codes are left out on purpose, see DESIGN.md section 7, observation F12.
 	SessNoExp bool `json:"sess_noexp"`
+	// compose the verifiable-credentials handler (handler/verifiable): a token response whose grant contains openid and
+	// userinfo_credential_draft_00 carries a nonce bound to the access token by the store's NonceManager
+	VC bool `json:"vc,omitempty"`
 }
 
 func DefaultCfg() Cfg {
@@ -292,7 +295,7 @@ func NewWorld(cfg Cfg) *World {
 	}
 	w.SignKey = SigningKey(cfg.Key)
 	keyGetter := func(context.Context) (interface{}, error) { return w.SignKey, nil }
-	if cfg.AT == "jwt" || cfg.Key != "" {
+	if cfg.AT == "jwt" || cfg.Key != "" || cfg.VC {
 		hm := compose.NewOAuth2HMACStrategy(w.Config)
 		strat := &compose.CommonStrategy{
 			CoreStrategy:               coreStrategy(cfg, keyGetter, hm, w.Config),
@@ -300,7 +303,7 @@ func NewWorld(cfg Cfg) *World {
 			OpenIDConnectTokenStrategy: compose.NewOpenIDConnectStrategy(keyGetter, w.Config),
 			Signer:                     &jwt.DefaultSigner{GetPrivateKey: keyGetter},
 		}
-		w.Provider = compose.Compose(w.Config, w.Store, strat,
+		factories := []compose.Factory{
 			compose.OAuth2AuthorizeExplicitFactory,
 			compose.OAuth2AuthorizeImplicitFactory,
 			compose.OAuth2ClientCredentialsGrantFactory,
@@ -318,7 +321,11 @@ func NewWorld(cfg Cfg) *World {
 			compose.OAuth2TokenRevocationFactory,
 			compose.OAuth2PKCEFactory,
 			compose.PushedAuthorizeHandlerFactory,
-		)
+		}
+		if cfg.VC { // the verifiable-credentials nonce handler, after the handlers that mint the access token; the recording store is its NonceManager
+			factories = append(factories, compose.OIDCUserinfoVerifiableCredentialFactory)
+		}
+		w.Provider = compose.Compose(w.Config, w.Store, strat, factories...)
 	} else {
 		w.Provider = compose.ComposeAllEnabled(w.Config, w.Store, rk)
 	}
